@@ -222,6 +222,8 @@ pub fn required_probes(prop: &str) -> Vec<&'static str> {
             "rule.R4.env_only.evaluated",
             "rule.R5.evaluated",
             "rule.R7.evaluated",
+            "rule.R8.evaluated",
+            "probe.R8_name_shared_with_outer_level",
             "rule.T7.evaluated",
             "probe.read_found_variable_set",
             "probe.same_variable_read_twice_in_one_run",
@@ -289,6 +291,7 @@ fn init_sim() {
 
 fn worker(args: &[String]) -> i32 {
     init_sim();
+    exec::start_watchdog(45);
     let prop = arg(args, "--prop").expect("--prop");
     let seed: u64 = arg(args, "--seed").expect("--seed").parse().expect("seed");
     let runs: u64 = arg(args, "--runs").expect("--runs").parse().expect("runs");
@@ -315,6 +318,9 @@ fn worker(args: &[String]) -> i32 {
         }
     }
     for i in indices {
+        // generation and bookkeeping count as progress too (a worker that only skips runs
+        // after enough violations must not look hung)
+        exec::HEARTBEAT.fetch_add(1, std::sync::atomic::Ordering::Relaxed);
         if stats.get("runs.violating") >= 50 || stats.get("runs.violating.T5") >= 3 {
             // plenty of evidence; do not burn the budget on a tree that fails everywhere
             stats.bump("runs.skipped_after_50_violations");
@@ -371,6 +377,7 @@ fn worker(args: &[String]) -> i32 {
 
 fn replay(args: &[String]) -> i32 {
     init_sim();
+    exec::start_watchdog(45);
     let path = match args.first() {
         Some(p) => p,
         None => {
